@@ -402,6 +402,13 @@ func (c *Ctx) rulesC11(pkgs []string) {
 				for _, r := range *refs {
 					switch x := r.(type) {
 					case *ssa.Return:
+						// an unexported function that is never used as a value: every
+						// caller is analysed with the call result as a source of its own
+						if f.Parent() == nil && f.Object() != nil && !f.Object().Exported() && c.mapOrderFns()[f] {
+							if _, vals := c.allCallersOf(f); len(vals) == 0 {
+								continue
+							}
+						}
 						note("return", x, "the return value")
 					case *ssa.Store:
 						if x.Val != v {
